@@ -35,8 +35,27 @@ Proof.
   - destruct (a' =? a) eqn:E; [apply N.eqb_eq in E; subst; reflexivity | reflexivity].
 Qed.
 
-Lemma cache_add_code c a o : o_ocode o = None -> o_dcode o = None -> c_code (cache_add c a o) = c_code c.
-Proof. intros H1 H2. unfold cache_add. cbn [c_code]. rewrite H1, H2. reflexivity. Qed.
+(** contract code: written when the dirty code differs from the loaded code; the cache takes it
+    when, moreover, the code hash of the record changed *)
+Definition code_written (o : obj) : bool := negb (veqb (o_ocode o) (o_dcode o)).
+Definition cache_code_cond (o : obj) : bool :=
+  code_written o &&
+  match o_dirty o with
+  | Some d => match o_orig o with Some x => negb (veqb (ac_ch d) (ac_ch x)) | None => true end
+  | None => false
+  end.
+
+Lemma cache_add_code c a o a' :
+  aget a' (c_code (cache_add c a o)) = if (a' =? a) && cache_code_cond o then Some (o_dcode o) else aget a' (c_code c).
+Proof.
+  unfold cache_add, cache_code_cond, code_written. cbn [c_code].
+  destruct (negb (veqb (o_ocode o) (o_dcode o))); cbn [andb]; [| rewrite andb_false_r; reflexivity].
+  destruct (o_dirty o) as [d|]; [| rewrite andb_false_r; reflexivity].
+  destruct (o_orig o) as [x|].
+  - destruct (negb (veqb (ac_ch d) (ac_ch x))); [| rewrite andb_false_r; reflexivity].
+    rewrite aget_aput, andb_true_r. destruct (a' =? a); reflexivity.
+  - rewrite aget_aput, andb_true_r. destruct (a' =? a); reflexivity.
+Qed.
 
 Lemma sget_fold_commit (a : N) (l : list (bytes * val)) (init : list ((N * bytes) * bytes)) a' k :
   sget (a', k)
@@ -83,10 +102,19 @@ Proof.
   - destruct (a' =? a) eqn:E; [apply N.eqb_eq in E; subst; reflexivity | reflexivity].
 Qed.
 
-Lemma commit_obj_rest d a o : o_ocode o = None -> o_dcode o = None ->
-  d_code (commit_obj d a o) = d_code d /\ d_jnl (commit_obj d a o) = d_jnl d /\
+Lemma commit_obj_rest d a o :
+  d_jnl (commit_obj d a o) = d_jnl d /\
   d_min (commit_obj d a o) = d_min d /\ d_max (commit_obj d a o) = d_max d.
-Proof. intros H1 H2. unfold commit_obj. cbn [d_code d_jnl d_min d_max]. rewrite H1, H2. repeat split. Qed.
+Proof. repeat split. Qed.
+
+Lemma commit_obj_code d a o a' : (code_written o = true -> o_dcode o <> None) ->
+  aget a' (d_code (commit_obj d a o)) = if (a' =? a) && code_written o then o_dcode o else aget a' (d_code d).
+Proof.
+  intro H. unfold commit_obj, code_written in *. cbn [d_code].
+  destruct (negb (veqb (o_ocode o) (o_dcode o))); [| rewrite andb_false_r; reflexivity].
+  destruct (o_dcode o) as [c|]; [| exfalso; apply (H eq_refl); reflexivity].
+  rewrite aget_aput, andb_true_r. destruct (a' =? a); reflexivity.
+Qed.
 
 (** * the folds over the dirty accounts (each account at most once) *)
 Definition cache_fold (c : cache) (l : list (N * obj)) : cache :=
@@ -132,13 +160,19 @@ Proof.
   - apply IH. exact Hn'.
 Qed.
 
-Lemma cache_fold_code c l : (forall a o, In (a, o) l -> o_ocode o = None /\ o_dcode o = None) ->
-  c_code (cache_fold c l) = c_code c.
+Lemma cache_fold_code c l a : NoDup (map fst l) ->
+  aget a (c_code (cache_fold c l)) =
+  match aget a l with
+  | Some o => if cache_code_cond o then Some (o_dcode o) else aget a (c_code c)
+  | None => aget a (c_code c)
+  end.
 Proof.
-  induction l as [|[b o] t IH]; intro H; [reflexivity|].
-  cbn [cache_fold fold_right fst snd]. fold (cache_fold c t).
-  destruct (H b o (or_introl eq_refl)) as [H1 H2]. rewrite (cache_add_code _ b o H1 H2).
-  apply IH. intros a o' Hin. apply (H a o'). right. exact Hin.
+  induction l as [|[b o] t IH]; intro Hn; [reflexivity|].
+  cbn [cache_fold fold_right fst snd]. fold (cache_fold c t). rewrite cache_add_code, aget_cons.
+  inversion Hn as [|? ? Hni Hn']; subst.
+  destruct (a =? b) eqn:E; cbn [andb].
+  - apply N.eqb_eq in E. subst b. rewrite (IH Hn'), (NoDup_head_absent a o t Hn). reflexivity.
+  - apply IH. exact Hn'.
 Qed.
 
 Lemma commit_fold_st d l a k : NoDup (map fst l) ->
@@ -177,38 +211,86 @@ Proof.
   - apply IH. exact Hn'.
 Qed.
 
-Lemma commit_fold_rest d l : (forall a o, In (a, o) l -> o_ocode o = None /\ o_dcode o = None) ->
-  d_code (commit_fold d l) = d_code d /\ d_jnl (commit_fold d l) = d_jnl d /\
+Lemma commit_fold_rest d l :
+  d_jnl (commit_fold d l) = d_jnl d /\
   d_min (commit_fold d l) = d_min d /\ d_max (commit_fold d l) = d_max d.
 Proof.
-  induction l as [|[b o] t IH]; intro H; [repeat split|].
+  induction l as [|[b o] t IH]; [repeat split|].
   cbn [commit_fold fold_right fst snd]. fold (commit_fold d t).
-  destruct (H b o (or_introl eq_refl)) as [H1 H2].
-  destruct (commit_obj_rest (commit_fold d t) b o H1 H2) as [A1 [A2 [A3 A4]]].
-  destruct IH as [B1 [B2 [B3 B4]]]; [intros a o' Hin; apply (H a o'); right; exact Hin|].
+  destruct (commit_obj_rest (commit_fold d t) b o) as [A2 [A3 A4]].
+  destruct IH as [B2 [B3 B4]].
   repeat split; congruence.
 Qed.
 
-(** * the dirty list of a state whose objects carry no code *)
-Lemma journal_obj_same m a o : ObjOk m a o -> fst (journal_of m a o) = o.
+Lemma commit_fold_code d l a : NoDup (map fst l) ->
+  (forall b o, In (b, o) l -> code_written o = true -> o_dcode o <> None) ->
+  aget a (d_code (commit_fold d l)) =
+  match aget a l with
+  | Some o => if code_written o then o_dcode o else aget a (d_code d)
+  | None => aget a (d_code d)
+  end.
 Proof.
-  intros [_ _ _ _ [H1 [H2 [H3 _]]]]. unfold journal_of. cbn [fst]. rewrite H1, H2.
-  destruct o as [oo od os ds oc dc g]. simpl in *. subst oc dc.
-  destruct oo as [x|]; [rewrite (H3 x eq_refl)|]; reflexivity.
+  induction l as [|[b o] t IH]; intros Hn H; [reflexivity|].
+  cbn [commit_fold fold_right fst snd]. fold (commit_fold d t).
+  rewrite (commit_obj_code _ b o a (H b o (or_introl eq_refl))), aget_cons.
+  inversion Hn as [|? ? Hni Hn']; subst.
+  assert (H' : forall b' o', In (b', o') t -> code_written o' = true -> o_dcode o' <> None)
+    by (intros b' o' Hin; apply (H b' o'); right; exact Hin).
+  destruct (a =? b) eqn:E; cbn [andb].
+  - apply N.eqb_eq in E. subst b. rewrite (IH Hn' H'), (NoDup_head_absent a o t Hn). reflexivity.
+  - apply IH; assumption.
 Qed.
+
+Section ObjCode.
+Context {e : env}.
+
+(** the store's code is the cached code (no flush pending) *)
+Lemma db_code_cached m a : Inv m -> db_code m a = cached_code m a.
+Proof.
+  intro I. unfold cached_code. destruct (aget a (c_code (s_cache m))) as [v|] eqn:Ev; [| reflexivity].
+  symmetry. exact (inv_cc m I a v Ev).
+Qed.
+
+(** a written code is never nil (SetCode(nil) is outside the domain) *)
+Lemma written_some m a o : ObjOk m a o -> code_written o = true -> o_dcode o <> None.
+Proof.
+  intros [_ _ _ _ Hoc Hcd] Hw Hd. unfold code_written in Hw. rewrite Hd in Hw.
+  destruct Hcd as [[Heq _] | [d [_ [_ Hc]]]].
+  - rewrite <- Heq, Hd in Hw. discriminate.
+  - rewrite Hoc, (Hc Hd) in Hw. discriminate.
+Qed.
+
+(** * the dirty list: the lazy origin-code load of getJournalIfModified finds nothing new *)
+Lemma journal_oc m a o : Inv m -> ObjOk m a o ->
+  match o_ocode o, o_orig o with
+  | None, Some x => if is_nil (ac_ch x) then None else db_code m a
+  | oc, _ => oc
+  end = o_ocode o.
+Proof.
+  intros I Ok. destruct (o_ocode o) as [c|] eqn:Eo; [reflexivity|].
+  destruct (o_orig o) as [x|]; [| reflexivity]. destruct (is_nil (ac_ch x)); [reflexivity|].
+  rewrite (db_code_cached m a I), <- (ok_oc m a o Ok). exact Eo.
+Qed.
+
+Lemma journal_obj_same m a o : Inv m -> ObjOk m a o -> fst (journal_of m a o) = o.
+Proof.
+  intros I Ok. unfold journal_of. cbn [fst]. rewrite (journal_oc m a o I Ok).
+  destruct o; reflexivity.
+Qed.
+End ObjCode.
 
 Definition flush_dirty (m : st) : list (N * obj) :=
   flat_map (fun x : N * (obj * option jentry) =>
               match snd (snd x) with Some _ => [(fst x, fst (snd x))] | None => [] end)
            (map (fun ao : N * obj => (fst ao, journal_of m (fst ao) (snd ao))) (s_objs m)).
 
-Lemma flush_dirty_eq m : Inv m -> flush_dirty m = dirty_objs m.
+Lemma flush_dirty_eq {e : env} m : Inv m -> flush_dirty m = dirty_objs m.
 Proof.
   intro I. unfold flush_dirty. rewrite dirty_list_eq.
   assert (H : forall l : list (N * obj), (forall a o, In (a, o) l -> In (a, o) (s_objs m)) ->
             map (fun ao : N * obj => (fst ao, fst (journal_of m (fst ao) (snd ao)))) l = l).
   { induction l as [|[a o] t IH]; intro Hin; [reflexivity|]. cbn [map fst snd].
-    rewrite (journal_obj_same m a o), IH; [reflexivity | intros; apply Hin; right; assumption |].
+    rewrite (journal_obj_same m a o I), IH; [reflexivity | intros; apply Hin; right; assumption |].
     apply (inv_objs m I). apply In_aget; [apply I | apply Hin; left; reflexivity]. }
   apply H. intros a o Hin. apply In_dirty_objs in Hin. apply Hin.
 Qed.
@@ -227,13 +309,20 @@ Proof.
 Qed.
 
 (** an object that is not dirty has no changed entry and an unchanged account record *)
-Lemma not_dirty_facts m a o : ObjOk m a o -> is_dirty m a o = false ->
+Lemma not_dirty_facts {e : env} m a o : ObjOk m a o -> is_dirty m a o = false ->
   acct_changed (o_orig o) (o_dirty o) = false /\ changed_entries o = [].
 Proof.
   intros Ok. unfold is_dirty, journal_of. cbn [snd].
   destruct (acct_changed (o_orig o) (o_dirty o)); cbn [orb]; [discriminate|].
   destruct (changed_entries o) as [|x t]; [tauto|].
   cbn [map List.length Nat.eqb negb]. rewrite orb_true_r. discriminate.
+Qed.
+
+Lemma not_dirty_code {e : env} m a o : Inv m -> ObjOk m a o -> is_dirty m a o = false -> code_written o = false.
+Proof.
+  intros I Ok. unfold is_dirty, journal_of, code_written. cbn [snd]. rewrite (journal_oc m a o I Ok).
+  destruct (negb (veqb (o_ocode o) (o_dcode o))); [| reflexivity].
+  rewrite orb_true_r. cbn [orb]. discriminate.
 Qed.
 
 Lemma dirty_when_changed m a o : acct_changed (o_orig o) (o_dirty o) = true \/ changed_entries o <> [] ->
@@ -267,7 +356,7 @@ Proof.
   destruct (veqb (orig_of o k) v); [reflexivity | discriminate].
 Qed.
 
-Lemma orig_of_fl m a o k v : ObjOk m a o -> kget k (o_dst o) = Some v -> nb (orig_of o k) = fl_st m a k.
+Lemma orig_of_fl {e : env} m a o k v : ObjOk m a o -> kget k (o_dst o) = Some v -> nb (orig_of o k) = fl_st m a k.
 Proof.
   intros Ok Hk. unfold orig_of. destruct (kget k (o_ost o)) as [vo|] eqn:E.
   - eapply ok_org; eassumption.
@@ -278,6 +367,9 @@ Lemma veqb_nb x y : veqb x y = true -> nb x = nb y.
 Proof. unfold veqb. apply bytes_eqb_spec. Qed.
 
 Section FlushCommit.
+  Context {e : env}.
+  Hypothesis kec_ne : forall c, e_kec e c <> [].
+  Hypothesis kec_inj : forall c c', e_kec e c = e_kec e c' -> c = c'.
   Variable m : st.
   Hypothesis I : Inv m.
   Hypothesis C : Coh m.
@@ -289,10 +381,10 @@ Section FlushCommit.
   Lemma dirty_nodup : NoDup (map fst dirty).
   Proof. apply dirty_objs_keys_NoDup. apply I. Qed.
 
-  Lemma dirty_codes : forall a o, In (a, o) dirty -> o_ocode o = None /\ o_dcode o = None.
+  Lemma dirty_written : forall a o, In (a, o) dirty -> code_written o = true -> o_dcode o <> None.
   Proof.
     intros a o Hin. apply In_dirty_objs in Hin. destruct Hin as [Hin _].
-    pose proof (inv_objs m I a o (In_aget a o _ (inv_nd_objs m I) Hin)) as [_ _ _ _ [H1 [H2 _]]]. tauto.
+    apply (written_some m a o). apply (inv_objs m I a o (In_aget a o _ (inv_nd_objs m I) Hin)).
   Qed.
 
   (** the value a fresh reader finds after flush + commit is the current value *)
@@ -337,32 +429,39 @@ Section FlushCommit.
     - destruct v; reflexivity.
   Qed.
 
-  Lemma acct_unchanged_eq x d : ac_ch x = None -> ac_ch d = None ->
+  Lemma nb_some_ne (x : val) (h : bytes) : h <> [] -> nb x = h -> x = Some h.
+  Proof. intros Hne H. destruct x as [b|]; cbn [nb] in H; congruence. Qed.
+  Lemma veqb_some_ne (x : val) (h : bytes) : h <> [] -> veqb x (Some h) = true -> x = Some h.
+  Proof. intros Hne H. apply veqb_nb in H. cbn [nb] in H. apply nb_some_ne; assumption. Qed.
+
+  (** an unchanged record is the loaded record, exactly *)
+  Lemma acct_unchanged_eq a o x d : ObjOk m a o -> o_orig o = Some x -> o_dirty o = Some d ->
     acct_changed (Some x) (Some d) = false -> x = d.
   Proof.
-    intros Hx Hd. unfold acct_changed. rewrite Hx, Hd.
-    replace (veqb None None) with true by reflexivity. rewrite andb_true_r.
-    intro H. apply negb_false_iff in H. apply andb_true_iff in H. destruct H as [H1 H2].
-    apply N.eqb_eq in H1. apply Z.eqb_eq in H2. destruct x, d. simpl in *. congruence.
+    intros Ok Ho Hd. unfold acct_changed.
+    intro H. apply negb_false_iff in H. apply andb_true_iff in H. destruct H as [H H3].
+    apply andb_true_iff in H. destruct H as [H1 H2].
+    apply N.eqb_eq in H1. apply Z.eqb_eq in H2.
+    assert (Hch : ac_ch x = ac_ch d).
+    { destruct (ok_cd m a o Ok) as [[_ Ha] | [d' [Hd' [Hk _]]]].
+      - rewrite (Ha d Hd). unfold och. rewrite Ho. reflexivity.
+      - rewrite Hd in Hd'. inversion Hd'; subst d'. rewrite Hk in H3 |- *.
+        apply veqb_some_ne; [apply kec_ne | exact H3]. }
+    destruct x, d. simpl in *. congruence.
   Qed.
 
   Lemma fc_acct a :
     let ca := aget a (c_acct cache') in
     let da := aget a (d_acct db') in
     (forall x, ca = Some x -> da = Some x) /\
-    acct_view (match ca with Some x => Some x | None => da end) = acct_view (cur_oacct m a) /\
-    (forall x, ca = Some x -> ac_ch x = None) /\ (forall x, da = Some x -> ac_ch x = None).
+    match ca with Some x => Some x | None => da end = cur_oacct m a.
   Proof.
     cbv zeta. unfold cache', db'. rewrite (cache_fold_acct _ _ a dirty_nodup), (commit_fold_acct _ _ a dirty_nodup).
     unfold dirty. rewrite (aget_dirty_objs m a (inv_nd_objs m I)). unfold cur_oacct.
-    assert (Hold : (forall x, aget a (c_acct (s_cache m)) = Some x -> aget a (d_acct (s_db m)) = Some x) /\
-                   (forall x, aget a (c_acct (s_cache m)) = Some x -> ac_ch x = None) /\
-                   (forall x, aget a (d_acct (s_db m)) = Some x -> ac_ch x = None)).
-    { split; [apply (coh_acct m C)|]. split; [apply (inv_cacct m I) | apply (inv_dacct m I)]. }
-    destruct Hold as [O1 [O2 O3]].
+    pose proof (coh_acct m C a) as O1.
     destruct (aget a (s_objs m)) as [o|] eqn:Eo.
-    2:{ split; [exact O1|]. split; [reflexivity|]. split; assumption. }
-    pose proof (inv_objs m I a o Eo) as Ok. destruct (ok_code m a o Ok) as [_ [_ [Hco Hcd]]].
+    2:{ split; [exact O1 | reflexivity]. }
+    pose proof (inv_objs m I a o Eo) as Ok.
     pose proof (ok_oa m a o Ok) as Hoa.
     assert (Hfl : fl_acct m a = aget a (d_acct (s_db m))) by (apply fl_acct_coh; exact C).
     destruct (is_dirty m a o) eqn:Ed.
@@ -371,19 +470,109 @@ Section FlushCommit.
         * intros x Hx. inversion Hx; subst x.
           destruct (acct_changed (o_orig o) (Some d)) eqn:Eac; [reflexivity|].
           destruct (o_orig o) as [x0|] eqn:Eorig; [| discriminate].
-          rewrite <- Hfl, <- Hoa. f_equal. apply acct_unchanged_eq; try assumption; [apply Hco | apply Hcd]; reflexivity.
-        * split; [unfold cur_acct; rewrite Edirty; reflexivity|]. split.
-          -- intros x Hx. inversion Hx; subst. apply Hcd. reflexivity.
-          -- destruct (acct_changed (o_orig o) (Some d)); [intros x Hx; inversion Hx; subst; apply Hcd; reflexivity | exact O3].
+          rewrite <- Hfl, <- Hoa. f_equal. apply (acct_unchanged_eq a o); assumption.
+        * unfold cur_acct. rewrite Edirty. reflexivity.
       + assert (Eac : acct_changed (o_orig o) None = false) by reflexivity. rewrite Eac.
-        split; [exact O1|]. split; [| split; assumption].
+        split; [exact O1|].
         unfold cur_acct. rewrite Edirty, Hoa. unfold fl_acct. reflexivity.
     - destruct (not_dirty_facts m a o Ok Ed) as [Hac _].
-      split; [exact O1|]. split; [| split; assumption].
-      change (acct_view (fl_acct m a) = acct_view (cur_acct o)). rewrite <- Hoa. unfold cur_acct.
+      split; [exact O1|].
+      change (fl_acct m a = cur_acct o). rewrite <- Hoa. unfold cur_acct.
       destruct (o_dirty o) as [d|] eqn:Edirty; [| reflexivity].
       destruct (o_orig o) as [x0|] eqn:Eorig; [| discriminate].
-      f_equal. f_equal. apply acct_unchanged_eq; try assumption; [apply Hco | apply Hcd]; reflexivity.
+      f_equal. apply (acct_unchanged_eq a o); assumption.
+  Qed.
+
+  (** a written code changes the code hash of the record: the cache takes it *)
+  Lemma written_cached a o : aget a (s_objs m) = Some o -> code_written o = true -> cache_code_cond o = true.
+  Proof.
+    intros Eo Hw. pose proof (inv_objs m I a o Eo) as Ok. unfold cache_code_cond. rewrite Hw. cbn [andb].
+    pose proof Hw as Hw0. unfold code_written in Hw. apply negb_true_iff in Hw.
+    destruct (ok_cd m a o Ok) as [[Heq _] | [d [Hd [Hk Hn]]]].
+    { rewrite Heq in Hw. unfold veqb in Hw. rewrite bytes_eqb_refl in Hw. discriminate. }
+    rewrite Hd. destruct (o_orig o) as [x|] eqn:Ex; [| reflexivity].
+    destruct (veqb (ac_ch d) (ac_ch x)) eqn:Ev; [| reflexivity]. exfalso.
+    rewrite Hk in Ev. apply veqb_nb in Ev. cbn [nb] in Ev. symmetry in Ev.
+    apply (nb_some_ne _ _ (kec_ne _)) in Ev.
+    assert (Hfc : fl_ch m a = ac_ch x) by (unfold fl_ch; rewrite <- (ok_oa m a o Ok), Ex; reflexivity).
+    assert (Hne : ch_nonempty (fl_ch m a) = true).
+    { rewrite Hfc, Ev. unfold ch_nonempty, veqb. cbn [nb]. destruct (bytes_eqb _ []) eqn:Eb; [| reflexivity].
+      apply bytes_eqb_spec in Eb. exfalso. exact (kec_ne _ Eb). }
+    pose proof (inv_k1 m I a Hne) as K. rewrite Hfc, Ev in K. inversion K as [K1].
+    apply kec_inj in K1. rewrite <- (ok_oc m a o Ok) in K1.
+    unfold veqb in Hw. rewrite K1, bytes_eqb_refl in Hw. discriminate.
+  Qed.
+
+  Definition code_after (a : N) : val :=
+    match aget a (s_objs m) with
+    | Some o => if is_dirty m a o && code_written o then o_dcode o else cached_code m a
+    | None => cached_code m a
+    end.
+
+  Lemma fc_code a :
+    let cc := aget a (c_code cache') in
+    let dc := aget a (d_code db') in
+    (forall v, cc = Some v -> v = dc) /\ match cc with Some v => v | None => dc end = code_after a.
+  Proof.
+    cbv zeta. unfold cache', db'.
+    rewrite (cache_fold_code _ _ a dirty_nodup), (commit_fold_code _ _ a dirty_nodup dirty_written).
+    unfold dirty. rewrite (aget_dirty_objs m a (inv_nd_objs m I)). unfold code_after.
+    assert (Hold : (forall v, aget a (c_code (s_cache m)) = Some v -> v = aget a (d_code (s_db m))) /\
+                   match aget a (c_code (s_cache m)) with Some v => v | None => aget a (d_code (s_db m)) end = cached_code m a).
+    { split; [apply (inv_cc m I a) | reflexivity]. }
+    destruct (aget a (s_objs m)) as [o|] eqn:Eo; [| exact Hold].
+    destruct (is_dirty m a o) eqn:Ed; cbn [andb]; [| exact Hold].
+    destruct (code_written o) eqn:Ew.
+    - rewrite (written_cached a o Eo Ew). split; [intros v Hv; inversion Hv; reflexivity | reflexivity].
+    - unfold cache_code_cond. rewrite Ew. cbn [andb]. exact Hold.
+  Qed.
+
+  (** the code a fresh reader finds after flush + commit is the current code *)
+  Lemma code_after_cur a : nb (code_after a) = cur_code m a.
+  Proof.
+    unfold code_after, cur_code. destruct (aget a (s_objs m)) as [o|] eqn:Eo.
+    2:{ rewrite (load_code_cached m a I). reflexivity. }
+    pose proof (inv_objs m I a o Eo) as Ok.
+    assert (Hnw : code_written o = false -> nb (cached_code m a) = nb (o_dcode o)).
+    { intro H. unfold code_written in H. apply negb_false_iff in H. rewrite <- (ok_oc m a o Ok). apply veqb_nb. exact H. }
+    destruct (is_dirty m a o) eqn:Ed; cbn [andb].
+    - destruct (code_written o) eqn:Ew; [reflexivity | apply Hnw; reflexivity].
+    - apply Hnw. apply (not_dirty_code m a o I Ok Ed).
+  Qed.
+
+  Lemma obj_ch_cases a o : ObjOk m a o ->
+    (obj_ch o = fl_ch m a /\ o_dcode o = o_ocode o) \/ obj_ch o = Some (e_kec e (nb (o_dcode o))).
+  Proof.
+    intro Ok. unfold obj_ch, cur_acct. destruct (ok_cd m a o Ok) as [[Heq Ha] | [d [Hd [Hk _]]]].
+    - left. split; [| exact Heq]. unfold fl_ch. rewrite <- (ok_oa m a o Ok).
+      destruct (o_dirty o) as [d|]; [apply (Ha d eq_refl) | reflexivity].
+    - right. rewrite Hd. exact Hk.
+  Qed.
+
+  Lemma ch_nonempty_kec c : ch_nonempty (Some (e_kec e c)) = true.
+  Proof.
+    unfold ch_nonempty, veqb. cbn [nb]. destruct (bytes_eqb _ []) eqn:Eb; [| reflexivity].
+    apply bytes_eqb_spec in Eb. exfalso. exact (kec_ne _ Eb).
+  Qed.
+
+  (** the code tables after flush + commit against the records after flush + commit *)
+  Lemma fc_code_tables a :
+    let ch := match cur_oacct m a with Some x => ac_ch x | None => None end in
+    (ch_nonempty ch = false -> code_after a = None) /\
+    (ch_nonempty ch = true -> ch = Some (e_kec e (nb (code_after a)))).
+  Proof.
+    cbv zeta. unfold cur_oacct.
+    destruct (aget a (s_objs m)) as [o|] eqn:Eo.
+    2:{ unfold code_after. rewrite Eo. split; [apply (inv_t1 m I a) | apply (inv_k1 m I a)]. }
+    pose proof (inv_objs m I a o Eo) as Ok. change (match cur_acct o with Some x => ac_ch x | None => None end) with (obj_ch o).
+    assert (Hca : code_written o = false -> code_after a = cached_code m a).
+    { intro H. unfold code_after. rewrite Eo, H, andb_false_r. reflexivity. }
+    destruct (obj_ch_cases a o Ok) as [[Hch Heq] | Hch].
+    - assert (Hw : code_written o = false).
+      { unfold code_written. rewrite Heq. unfold veqb. rewrite bytes_eqb_refl. reflexivity. }
+      rewrite Hch, (Hca Hw). split; [apply (inv_t1 m I a) | apply (inv_k1 m I a)].
+    - rewrite Hch, ch_nonempty_kec. split; [discriminate|]. intros _. f_equal. f_equal.
+      rewrite code_after_cur. unfold cur_code. rewrite Eo. reflexivity.
   Qed.
 End FlushCommit.
 
@@ -409,7 +598,7 @@ Lemma ftc_fields m h :
   let pr := (10 <? h) && (min1 <? h - 10) in
   d_acct (s_db mc) = d_acct (commit_fold (s_db m) (dirty_objs m)) /\
   d_st (s_db mc) = d_st (commit_fold (s_db m) (dirty_objs m)) /\
-  d_code (s_db mc) = d_code (s_db m) /\
+  d_code (s_db mc) = d_code (commit_fold (s_db m) (dirty_objs m)) /\
   s_cache mc = cache_fold (s_cache m) (dirty_objs m) /\
   s_objs mc = [] /\ s_chg mc = s_chg m /\ s_revs mc = s_revs m /\ s_next mc = s_next m /\
   s_pend mc = None /\ s_prev mc = root /\ s_max mc = h /\ d_max (s_db mc) = h /\
@@ -423,9 +612,7 @@ Proof.
   fold (flush_dirty m). rewrite (flush_dirty_eq m I).
   cbn [fst snd]. unfold do_commit. cbn [s_pend s_db s_cache s_objs s_chg s_gen s_revs s_next s_prev s_min s_max s_bad].
   fold (commit_fold (s_db m) (dirty_objs m)).
-  destruct (commit_fold_rest (s_db m) (dirty_objs m)) as [R1 [R2 [R3 R4]]].
-  { intros a o Hin. apply In_dirty_objs in Hin. destruct Hin as [Hin _].
-    pose proof (inv_objs m I a o (In_aget a o _ (inv_nd_objs m I) Hin)) as [_ _ _ _ [H1 [H2 _]]]. tauto. }
+  destruct (commit_fold_rest (s_db m) (dirty_objs m)) as [R2 [R3 R4]].
   destruct ((10 <? h) && ((if s_min m =? 0 then h else s_min m) <? h - 10)) eqn:Epr; cbn [fst snd s_db s_cache s_objs s_chg s_revs s_next s_pend s_prev s_max s_min d_acct d_st d_code d_max d_min d_jnl].
   - repeat split; try assumption; try reflexivity.
     apply andb_true_iff in Epr. destruct Epr as [E1 E2]. apply N.ltb_lt in E1, E2.
@@ -438,6 +625,8 @@ End FlushCommitSim.
 
 Section FlushCommitSim2.
 Variable e : env.
+Hypothesis kec_ne : forall c, e_kec e c <> [].
+Hypothesis kec_inj : forall c c', e_kec e c = e_kec e c' -> c = c'.
 
 Definition spec_flush_commit (s : spec) (root : bytes) (dl : list N) (h : N) : spec :=
   fst (spec_step e (fst (spec_step e s Flush (OFlush root dl))) (Commit h) (ORes R_ok)).
@@ -466,33 +655,41 @@ Proof.
   set (mc := flush_then_commit e m h) in *.
   assert (Hst : forall a k, fl_st mc a k = cur_st m a k).
   { intros a k. unfold fl_st. rewrite cached_state_view, F4, F2. apply (fc_state_view m I). }
-  assert (Hac : forall a, acct_view (fl_acct mc a) = acct_view (cur_oacct m a)).
-  { intros a. unfold fl_acct. rewrite F4, F1. apply (fc_acct m I C a). }
+  assert (Hac : forall a, fl_acct mc a = cur_oacct m a).
+  { intros a. unfold fl_acct. rewrite F4, F1. apply (fc_acct kec_ne m I C a). }
+  assert (Hcode : forall a, cached_code mc a = code_after m a).
+  { intros a. unfold cached_code, db_code. rewrite F4, F3. apply (fc_code kec_ne kec_inj m I a). }
+  assert (Hfch : forall a, fl_ch mc a = match cur_oacct m a with Some x => ac_ch x | None => None end).
+  { intros a. unfold fl_ch. rewrite Hac. reflexivity. }
+  assert (Imc : Inv mc).
+  { constructor.
+    - rewrite F5. constructor.
+    - intros a o. rewrite F5. discriminate.
+    - intro a. rewrite Hfch, Hcode. apply (fc_code_tables kec_ne m I a).
+    - intro a. rewrite Hfch, Hcode. apply (fc_code_tables kec_ne m I a).
+    - intros a v. unfold db_code. rewrite F4, F3. apply (fc_code kec_ne kec_inj m I a). }
   assert (Hcur_st : forall a k, cur_st mc a k = fl_st mc a k) by (intros; unfold cur_st; rewrite F5; reflexivity).
   assert (Hcur_ac : forall a, cur_oacct mc a = fl_acct mc a) by (intros; unfold cur_oacct; rewrite F5; reflexivity).
   unfold spec_flush_commit. cbn [spec_step fst sp_pend].
   constructor.
-  - (* Inv *)
-    constructor.
-    + rewrite F5. constructor.
-    + intros a o. rewrite F5. discriminate.
-    + rewrite F3. apply I.
-    + rewrite F4. rewrite cache_fold_code; [apply I|]. apply (dirty_codes m I).
-    + intros a x. rewrite F1. apply (fc_acct m I C a).
-    + intros a x. rewrite F4. apply (fc_acct m I C a).
+  - exact Imc.
   - (* Coh *)
     constructor.
     + intros a cm k v Ha Hk. unfold db_st. rewrite F2.
       apply (fc_coh_st m I C a k v). unfold cache_st_view. rewrite <- F4, Ha. exact Hk.
-    + intros a x. rewrite F4, F1. apply (fc_acct m I C a).
+    + intros a x. rewrite F4, F1. apply (fc_acct kec_ne m I C a).
     + exact F9.
   - (* current = flushed = what was current *)
-    destruct Mc as [M1 M2]. split.
+    destruct Mc as [M1 [M2 M3]]. split; [| split].
     + intros a k. cbn [sp_cur]. rewrite Hcur_st, Hst. apply M1.
     + intros a. cbn [sp_cur]. rewrite Hcur_ac, Hac. apply M2.
-  - destruct Mc as [M1 M2]. split.
+    + intros a. cbn [sp_cur].
+      assert (Hcc : cur_code mc a = nb (load_code mc a)) by (unfold cur_code; rewrite F5; reflexivity).
+      rewrite Hcc, (load_code_cached mc a Imc), Hcode, (code_after_cur m I a). apply M3.
+  - destruct Mc as [M1 [M2 M3]]. split; [| split].
     + intros a k. cbn [sp_fl]. rewrite Hst. apply M1.
     + intros a. cbn [sp_fl]. rewrite Hac. apply M2.
+    + intros a. cbn [sp_fl]. rewrite Hcode, (code_after_cur m I a). apply M3.
   - apply (snap_ok_taint' m mc s Sn); try assumption; [rewrite F6; lia | reflexivity].
   - (* numbers *)
     destruct Nu as [N1 N2 N3 N4 N5 N6 N7 N8].
@@ -547,9 +744,7 @@ Proof.
   fold (flush_dirty m). rewrite (flush_dirty_eq m I). fold (flush_entries0 m).
   cbn [fst snd]. unfold do_commit. cbn [s_pend s_db s_cache s_objs s_chg s_gen s_revs s_next s_prev s_min s_max s_bad].
   fold (commit_fold (s_db m) (dirty_objs m)).
-  destruct (commit_fold_rest (s_db m) (dirty_objs m)) as [R1 [R2 [R3 R4]]].
-  { intros a o Hin. apply In_dirty_objs in Hin. destruct Hin as [Hin _].
-    pose proof (inv_objs m I a o (In_aget a o _ (inv_nd_objs m I) Hin)) as [_ _ _ _ [H1 [H2 _]]]. tauto. }
+  destruct (commit_fold_rest (s_db m) (dirty_objs m)) as [R2 [R3 R4]].
   destruct ((10 <? h) && ((if s_min m =? 0 then h else s_min m) <? h - 10)) eqn:Epr; cbn [fst s_db d_jnl].
   - apply andb_true_iff in Epr. destruct Epr as [E1 E2]. apply N.ltb_lt in E1, E2.
     split.
